@@ -53,10 +53,10 @@ Section AnyRing.
   Theorem C07_zde_iff : forall A F (y : mv R),
     inv_model O dv isz F A y = Err EZeroDiv
     <-> exists num den, inv_numden O dv isz F A y = Ok (num, den) /\ isz den = true.
-  Proof. exact (zde_iff R R0 R1 Radd Rmul Rsub Ropp). Qed.
+  Proof. intros A F. exact (zde_iff R R0 R1 Radd Rmul Rsub Ropp A dv isz F). Qed.
   (* ... the generators of numerator and denominator never raise it themselves *)
   Theorem C07_no_other_zde : forall A F (y : mv R), inv_numden O dv isz F A y <> Err EZeroDiv.
-  Proof. exact (inv_numden_no_zde R R0 R1 Radd Rmul Rsub Ropp). Qed.
+  Proof. intros A F. exact (inv_numden_no_zde R R0 R1 Radd Rmul Rsub Ropp A dv isz F). Qed.
 
   (* whatever alg.inv returns is a two-sided inverse as soon as its numerator/denominator pair satisfies
      the two scalar equations (proved below for d <= 3, explored by the check beyond) *)
